@@ -1,8 +1,142 @@
 """Per-property registry: engines, stated bounds, stubs and assumptions (copied into evidence)."""
 
 YEARS = "dates: every calendar day with year in 1900..=9999 (symbolic year + ordinal)"
+S_TIMES = "times: every time span end-point is a symbolic minute (start 00:00..=24:00, end 00:00..=48:00, any order), rule kinds are forked over open / closed / unknown"
+S_TWIN = ("ExtendedTime is replaced by its minute-counter twin (symex/twin/extended_time.rs); engine K proves the real type equal to that "
+          "specification over its whole domain (C19)")
+S_SHIM = ("chrono is replaced by symex/chrono-shim (dates = real chrono 0.4.39 or symbolic day numbers, times/durations/offsets = symbolic seconds; "
+          "sub-second precision not modelled); trusted, written from chrono's documented contracts")
+S_REPLAY = "every counterexample is replayed natively against the real, unsubstituted crates (dev and release profile) before it is reported"
+S_PROBE = "probe days: the week of Wednesday 2024-06-12 (concrete dates, holidays 2024-06-12/13 in the context)"
 
 PROPS = {
+    "C01": {
+        "engines": ["K", "S"],
+        "bounds": [
+            "K: " + YEARS + "; year ranges a<=b with every step, week ranges (wrapping only with step 1), month ranges (wrapping only without year), weekday ranges with all 2^10 nth masks "
+            "(day offset 0 in quick, -3..=3 and +-7/+-31 in thorough), PH/SH against a calendar of two symbolic holidays (offset -2..=2, years 2023..=2026), "
+            "conjunction/disjunction of selector groups, valid_ymd clamping (all y/m/d), DateOffset::apply for offsets 0, +1 (quick), -2, +40 (thorough), Easter a Sunday in Mar 22..Apr 25 for every year",
+            "S c01: " + S_PROBE + "; 1-3 rules, every operator, <=2 spans per rule; " + S_TIMES,
+            "S c01d: dated ranges ([year] Mon dd [+-weekday] [+-n days], Easter, open end) from a family of 24 (quick) / 31 (thorough) shapes, the evaluated day is a SYMBOLIC date over 2019-01-01..=2025-12-31",
+        ],
+        "outside_bounds": [
+            "wrapping year ranges, week ranges that wrap and have a step, month ranges that wrap and carry a year (semantics undocumented, excluded by assume)",
+            "dated-range end points outside the template family; weekday day-offsets outside the listed windows; more than 3 rules or 2 spans per rule",
+            "a spill-over from the previous day meeting a fallback rule: both readings of 'covered' are accepted",
+            "parse(): expressions are built as ASTs (the pest parser cannot be executed symbolically)",
+        ],
+        "stubs": ["K: count_days_in_month -> arithmetic month length in the weekday harnesses (equivalence proved by c01_q_count_days_in_month in the same run)"],
+        "assumptions": [S_TWIN, S_SHIM, S_REPLAY, "oracles written from the property text / OSM specification, calibrated against the expectations of the upstream test-suite"],
+        "explanation": "K: differential harnesses real filter(date) == arithmetic oracle over all dates and field values. S: the real schedule_at runs with symbolic span end-points; "
+                       "the kind at a symbolic minute is compared with a pointwise reference fold of the documented rule combination; dated ranges run with a symbolic date.",
+    },
+    "C02": {
+        "engines": ["K", "S"],
+        "bounds": [
+            "K (one inductive step, all dates 1900..=9999, d and d' symbolic): year hint step 1 and step 2..=16 (17..=128 thorough), month hint (wrapping allowed), week hint step 1 and 2..=8",
+            "S c02: iter_range over [2024-06-11 + from_s, 2024-06-14 + to_s) (3 more windows in thorough) with symbolic seconds, 1-3 rules from a family of 13 (quick) / 24 (thorough) selectors; " + S_TIMES,
+            "S c02d: selector hint lemma with a SYMBOLIC date d in 2019..=2025 and d' in d+1..=d+370 (800 thorough) for 50+ selector shapes (years with steps, months with/without year, weeks, PH/SH with offsets, every dated-range shape of C01, combinations)",
+            "S c02e: expression-level lemma (every day strictly between d and OpeningHours::next_change_hint(d) is one full-day range continuing the state in which d ends), symbolic d in 2019..=2025, 14 (16) expressions incl. the defects named by the property",
+        ],
+        "outside_bounds": ["windows longer than 4 days end-to-end (covered through the lemma only)", "week hints with a step above 8, year steps above 128", "dates outside 2019..=2025 for the selectors K cannot reach (dated ranges, month+year, holidays, combinations)"],
+        "stubs": [],
+        "assumptions": [S_TWIN, S_SHIM, S_REPLAY, "the pointwise oracle of the stream is the real schedule_at (as the property defines it)"],
+        "explanation": "Skipping days is sound iff a local fact holds for every skipped day: decided per selector (K over all dates, S with symbolic dates) and per expression (S); "
+                       "the stitching of the stream (non-empty, increasing, gap-free, clipped, alternating states, state = daily schedule at every instant) is decided on windows of concrete days with symbolic times.",
+    },
+    "C03": {
+        "engines": ["S"],
+        "bounds": ["query instant = 2024-06-12 (also 06-11, 06-13 in thorough) + symbolic second of day; expression family of C02; changes up to 400 days ahead are checked against every day in between, farther ones on the first 400 days and the last 2"],
+        "outside_bounds": ["next_change is not called when the state is constant for 8 days and the selectors have no far-reaching hints (the evaluator then walks day by day to year 9999: bounded but long)", "sub-second instants"],
+        "stubs": [],
+        "assumptions": [S_TWIN, S_SHIM, S_REPLAY],
+        "explanation": "state(t) against the daily schedule at t, is_* against state, next_change(t): strictly later, state differs there, no earlier change at any symbolic instant in between, none only if no change.",
+    },
+    "C04": {
+        "engines": ["K", "S"],
+        "bounds": ["S: every feasible path of every suite (c14, c01, c01d, c02, c02d, c02e, c03, c07, c08, c09, c16) runs under catch_unwind: a panic of the code under test is a counterexample; each path terminates under a decision budget",
+                   "K: every kernel harness of C01/C02/C07/C11/C15/C19 carries Kani's panic / overflow / unwrap / index checks; c04_* harnesses use full-width fields (i64 day offsets)"],
+        "outside_bounds": ["parse(&str) itself (pest): e.g. the '10:00-12:00/30' panic inside build_timespan is not reachable by this family here", "Display / fmt", "contexts built by from_coords (geodata)",
+                           "dates outside the windows of the suites (K kernels: all chrono dates only in the c04_* / c08_* harnesses)"],
+        "stubs": [],
+        "assumptions": [S_TWIN, S_SHIM, S_REPLAY],
+        "explanation": "No panic on any explored path of the evaluator, normalizer, schedule algebra, iterator and zone plumbing; kernels free of arithmetic overflow for all field values.",
+    },
+    "C07": {
+        "engines": ["K", "S"],
+        "bounds": ["K: the real MakeCanonical pipeline (selector -> canonical exclusive ranges -> selector) denotes the same set for every year range a<=b, every month / week / weekday range incl. wrapping ones; non-canonical selectors are refused",
+                   "S: 1-3 rules from a family of 16 (25) canonical and 3 non-canonical selectors incl. frame ends (week 52/53, December, Sunday, 9999), every operator; " + S_TIMES + "; original and normalized expression evaluated by the real schedule_at on 24 probe days (every weekday, month ends, leap day, ISO week 53, 1900-01-01, 9999-12-31) and compared at a symbolic minute"],
+        "outside_bounds": ["days other than the 24 probe days (the day dimension of the paving is exercised through the probe set and through K's range conversions)", "more than 3 rules"],
+        "stubs": [],
+        "assumptions": [S_TWIN, S_SHIM, S_REPLAY],
+        "explanation": "normalize() runs for real on symbolic spans (paving cuts fork through the solver); meaning preserved at every minute of every probe day.",
+    },
+    "C08": {
+        "engines": ["S"],
+        "bounds": ["windows 1899-12-30..1900-01-02, 9999-12-30..10000-01-02, 1700-03-01..03, 12000-03-01..03, 9999-12-31 with symbolic seconds at both ends; 5 expression shapes with symbolic spans/kinds"],
+        "outside_bounds": ["other expressions; selector hints beyond 10000-01-01 are tolerated (the iterator clips them)"],
+        "stubs": [],
+        "assumptions": [S_TWIN, S_SHIM, S_REPLAY],
+        "explanation": "closed outside the range, no interval before the requested start or after min(end, 10000-01-01), next_change never at/after 10000-01-01, from before 1900 the first non-closed instant.",
+    },
+    "C09": {
+        "engines": ["S"],
+        "bounds": ["a stub TimeZone with ONE arbitrary transition: UTC instant, old and new offset all symbolic (whole minutes, |offset| <= 14h, jump <= 65 min quick / 180 min thorough; monotonicity and evaluation equivalence: jump <= 12 / 65 min); naive local times on every minute of the 3 days around the transition",
+                   "evaluation equivalence (state, iter_range over one day) on 2 (3) expressions with concrete spans"],
+        "outside_bounds": ["real IANA tables (chrono-tz data), zones with several transitions inside one query window, offsets with seconds, sub-minute naive times in gaps"],
+        "stubs": ["chrono::TimeZone implemented by a stub that returns None / Single / Ambiguous(earliest, latest) per chrono's documented contract"],
+        "assumptions": [S_TWIN, S_SHIM, S_REPLAY, "native replay uses the same stub on top of the real chrono TimeZone trait"],
+        "explanation": "The real TzLocation::{naive, datetime} and the zone plumbing of iter_range/state run against the stub zone; results compared with arithmetic on the symbolic offsets.",
+    },
+    "C11": {
+        "engines": ["K"],
+        "bounds": ["Coordinates::new over all 2^128 pairs of f64 bit patterns", "default events on every date 1900..=9999", "event offset arithmetic for every i16 offset"],
+        "outside_bounds": ["dawn < sunrise < noon < sunset < dusk (floating-point trigonometry in the sunrise crate)", "zone inference from coordinates (tzf-rs polygons)", "'every accepted pair yields a zone and evaluates'"],
+        "stubs": [],
+        "assumptions": ["CBMC's bit-precise IEEE-754 semantics"],
+        "explanation": "Partial claim: coordinate acceptance, documented default event times, event + offset arithmetic with the 00:00 fallback.",
+    },
+    "C13": {
+        "engines": ["S"],
+        "bounds": ["same templates as C07: normalize(normalize(e)) == normalize(e) and normalize(e) == normalize(e.clone()) as structural equality of the ASTs on every path"],
+        "outside_bounds": ["the 'printable and reparseable' clause (C06 is not applicable: pest + fmt)"],
+        "stubs": [],
+        "assumptions": [S_TWIN, S_SHIM, S_REPLAY],
+        "explanation": "Idempotence and determinism of the real normalize() on symbolic spans.",
+    },
+    "C14": {
+        "engines": ["S"],
+        "bounds": ["from_ranges over n <= 3 (4 thorough) arbitrary ranges in 00:00..=24:00 (any order, empty, inverted, nested, adjacent)", "addition of 2 schedules of <= 2 ranges each and of 3 single-range schedules, every kind combination",
+                   "day iteration of every such sum and of schedules built from <= 2 (3) additions with symbolic kinds"],
+        "outside_bounds": ["more ranges / operands", "ranges beyond 24:00"],
+        "stubs": [],
+        "assumptions": [S_TWIN, S_REPLAY],
+        "explanation": "Invariant (disjoint, increasing, non-empty), coverage and overlay semantics at a symbolic minute, gap-free alternating tiling.",
+    },
+    "C15": {
+        "engines": ["K"],
+        "bounds": ["CompactMonth: every operation for all 2^31 day sets and all days (iteration: sets of <= 4 days)", "CompactYear: every operation for all 12 x 31-bit day sets and all (month, day); serialize -> deserialize identity and exact byte consumption"],
+        "outside_bounds": ["CompactCalendar (VecDeque of years): the year-window growth could not be decided by CBMC (out of memory / > 45 min for 3 insertions with concrete years), see DESIGN.md"],
+        "stubs": [],
+        "assumptions": [],
+        "explanation": "Bit-set model comparison over the complete input space of the month / year layers.",
+    },
+    "C16": {
+        "engines": ["S"],
+        "bounds": ["bound B symbolic in 1..=5 days (21 thorough) with second granularity, query instant 2024-06-12 + symbolic second, expression family of C02; the exact answer is taken from the unbounded evaluator on a window of max(B) + 2 days"],
+        "outside_bounds": ["bounds of months or years (each day-step forks on B)"],
+        "stubs": [],
+        "assumptions": [S_TWIN, S_SHIM, S_REPLAY],
+        "explanation": "state unchanged; a reported change is the exact one; exact whenever at most B - 24h away; none whenever more than B away.",
+    },
+    "C17": {
+        "engines": ["S"],
+        "bounds": ["day schedules of the C01 templates with distinct comments c0/c1/c2 on the rules; first interval of the C02 streams"],
+        "outside_bounds": ["more than 3 rules / 3 distinct comments"],
+        "stubs": [],
+        "assumptions": [S_TWIN, S_SHIM, S_REPLAY],
+        "explanation": "sorted, duplicate-free, taken from the expression, empty when no rule contributes, single-rule provenance, first interval carries the comments of the period containing the start.",
+    },
     "C19": {
         "engines": ["K"],
         "bounds": ["complete: every (hour, minute) in u8 x u8, every minute count in u16, every offset in i16 / i8; no loop, no unwinding bound"],
@@ -11,147 +145,23 @@ PROPS = {
         "assumptions": ["chrono 0.4.39 NaiveTime accessors as compiled by Kani"],
         "explanation": "Kani harnesses compare the real ExtendedTime against an integer minute-counter specification over the whole input domain.",
     },
+    "C20": {
+        "engines": ["S"],
+        "bounds": ["From<Vec<T>> + contains + find_first_following for vectors of <= 4 (6 thorough) symbolic integers", "union of sorted-unique operands of lengths <= 3 (5) each"],
+        "outside_bounds": ["longer vectors"],
+        "stubs": [],
+        "assumptions": ["the real generic code is instantiated at T = symbolic integer (Ord / Eq fork through the solver); no substitution"],
+        "explanation": "sorted-unique result, membership = union of memberships at a symbolic probe, least element not smaller than the probe.",
+    },
 }
 
-PROPS["C15"] = {
-    "engines": ["K"],
-    "bounds": [],
-    "outside_bounds": [],
-    "stubs": [],
-    "assumptions": [],
-    "explanation": "",
-}
-PROPS["C11"] = {
-    "engines": ["K"],
-    "bounds": [],
-    "outside_bounds": [],
-    "stubs": [],
-    "assumptions": [],
-    "explanation": "",
-}
-
-PROPS["C14"] = {
-    "engines": ["S"],
-    "bounds": [],
-    "outside_bounds": [],
-    "stubs": [],
-    "assumptions": [],
-    "explanation": "",
-}
-PROPS["C20"] = {
-    "engines": ["S"],
-    "bounds": [],
-    "outside_bounds": [],
-    "stubs": [],
-    "assumptions": [],
-    "explanation": "",
-}
-
-PROPS["C01"] = {
-    "engines": ["K", "S"],
-    "bounds": [],
-    "outside_bounds": [],
-    "stubs": [],
-    "assumptions": [],
-    "explanation": "",
-}
-PROPS["C17"] = {
-    "engines": ["S"],
-    "bounds": [],
-    "outside_bounds": [],
-    "stubs": [],
-    "assumptions": [],
-    "explanation": "",
-}
-
-PROPS["C02"] = {
-    "engines": ["S"],
-    "bounds": [],
-    "outside_bounds": [],
-    "stubs": [],
-    "assumptions": [],
-    "explanation": "",
-}
-PROPS["C03"] = {
-    "engines": ["S"],
-    "bounds": [],
-    "outside_bounds": [],
-    "stubs": [],
-    "assumptions": [],
-    "explanation": "",
-}
-PROPS["C04"] = {
-    "engines": ["S"],
-    "bounds": [],
-    "outside_bounds": [],
-    "stubs": [],
-    "assumptions": [],
-    "explanation": "",
-}
-PROPS["C08"] = {
-    "engines": ["S"],
-    "bounds": [],
-    "outside_bounds": [],
-    "stubs": [],
-    "assumptions": [],
-    "explanation": "",
-}
-PROPS["C16"] = {
-    "engines": ["S"],
-    "bounds": [],
-    "outside_bounds": [],
-    "stubs": [],
-    "assumptions": [],
-    "explanation": "",
-}
-
-PROPS["C09"] = {
-    "engines": ["S"],
-    "bounds": [],
-    "outside_bounds": [],
-    "stubs": [],
-    "assumptions": [],
-    "explanation": "",
-}
-
-PROPS["C07"] = {
-    "engines": ["S"],
-    "bounds": [],
-    "outside_bounds": [],
-    "stubs": [],
-    "assumptions": [],
-    "explanation": "",
-}
-PROPS["C13"] = {
-    "engines": ["S"],
-    "bounds": [],
-    "outside_bounds": [],
-    "stubs": [],
-    "assumptions": [],
-    "explanation": "",
-}
-
-HOOK_COMMITS = ["3b45d39", "83997c5"]
+HOOK_COMMITS = ["3b45d39", "83997c5", "d8fb50b"]
 
 # Every property that has no entry in PROPS is listed with its reason.
 NOT_APPLICABLE = {
-    "C01": "pending: harnesses under construction in this session",
-    "C02": "pending: harnesses under construction in this session",
-    "C03": "pending: harnesses under construction in this session",
-    "C04": "pending: harnesses under construction in this session",
     "C05": "deciding what parse() builds needs symbolic execution of the pest-generated parser; even a concrete 4-byte input does not get through Kani's symbolic execution in 900 s, and the AST builders only accept pest Pairs that cannot be built without running the parser",
     "C06": "the round trip is parse(to_string(e)): same pest obstacle as C05, plus core::fmt, which has to be stubbed out under Kani so the printed text is not available to the solver",
-    "C07": "pending: harnesses under construction in this session",
-    "C08": "pending: harnesses under construction in this session",
-    "C09": "pending: harnesses under construction in this session",
     "C10": "equality between a data file and a build artefact (build.rs -> deflate -> env!/include_bytes! -> lazy inflate): no input to make symbolic; file I/O, build scripts and (de)compression cannot be encoded",
-    "C11": "pending: harnesses under construction in this session",
     "C12": "the observable is the extension module inside CPython; the pyo3/FFI boundary and the interpreter are outside every engine installed here",
-    "C13": "pending: harnesses under construction in this session",
-    "C14": "pending: harnesses under construction in this session",
-    "C15": "pending: harnesses under construction in this session",
-    "C16": "pending: harnesses under construction in this session",
-    "C17": "pending: harnesses under construction in this session",
     "C18": "a statement about thread interleavings and first-use order of LazyLock/Once statics; Kani does not model concurrency and the symbolic-execution engine is single-threaded by construction",
-    "C20": "pending: harnesses under construction in this session",
 }
